@@ -127,14 +127,25 @@ type c19Script struct {
 	transient bool
 	viaGlobal bool // install the scripted source as crypto/rand.Reader and hand THAT variable to the library
 	duplex    bool // hand the source over as a duplex device (it also implements io.Writer, loop-back)
+	sized     bool // hand the source over with Len()/Size() query methods
 }
 
 // c19Call runs the library call; with viaGlobal the scripted reader is first installed as the process-wide crypto/rand.Reader and the
 // library receives the value of that variable (what most callers pass). A call that has not returned after 60 s (four orders of
 // magnitude above its normal duration) on a source that keeps failing is reported as not terminating.
+// c19Sized is the scripted source with the QUERY methods many in-memory and buffered sources have (bytes.Reader, bytes.Buffer,
+// strings.Reader, ring buffers): Len() and Size() report what the script still holds. Knowing how much is there does not change
+// what a Read may do — deliver less than asked for, without error — nor when the source fails.
+type c19Sized struct{ *faultyReader }
+
+func (z c19Sized) Len() int    { return len(z.data) - z.pos }
+func (z c19Sized) Size() int64 { return int64(len(z.data)) }
+
 func c19Call(s *c19Script, rd io.Reader, f func(io.Reader)) (pan interface{}, hung bool) {
 	if fr, ok := rd.(*faultyReader); ok && s.duplex {
 		rd = c19Duplex{fr}
+	} else if ok && s.sized {
+		rd = c19Sized{fr}
 	}
 	if s.viaGlobal {
 		old := crand.Reader
@@ -350,7 +361,9 @@ func TestVerif_C19_Sign(t *testing.T) {
 		s.transient = gen.Bool(t, "transient")
 		s.viaGlobal = gen.Uniform(t, "viaGlobal", 0, 3) == 0
 		s.duplex = gen.Uniform(t, "duplex", 0, 2) == 0
+		s.sized = !s.duplex && gen.Uniform(t, "sized", 0, 1) == 0
 		rec.Tally(fmt.Sprintf("source-is-duplex:%v", s.duplex))
+		rec.Tally(fmt.Sprintf("source-has-Len:%v", s.sized))
 		rec.Tally(fmt.Sprintf("source-is-crypto/rand.Reader:%v", s.viaGlobal))
 		inside := s.failAt >= 0 && s.failAt%32 != 0 && s.failAt < s.need
 		nt := inside || (s.failAt >= 32 && len(c.Rejected) > 0) || s.chunks != nil
@@ -394,7 +407,9 @@ func TestVerif_C19_Keygen(t *testing.T) {
 		s.transient = gen.Bool(t, "transient")
 		s.viaGlobal = gen.Uniform(t, "viaGlobal", 0, 3) == 0
 		s.duplex = gen.Uniform(t, "duplex", 0, 2) == 0
+		s.sized = !s.duplex && gen.Uniform(t, "sized", 0, 1) == 0
 		rec.Tally(fmt.Sprintf("source-is-duplex:%v", s.duplex))
+		rec.Tally(fmt.Sprintf("source-has-Len:%v", s.sized))
 		rec.Tally(fmt.Sprintf("source-is-crypto/rand.Reader:%v", s.viaGlobal))
 		inside := s.failAt >= 0 && s.failAt%32 != 0 && s.failAt < s.need
 		nt := inside || (s.failAt >= 32 && nrej > 0) || s.chunks != nil
